@@ -27,6 +27,9 @@ def run(ctx):
     from rules import c12
     c12.s2k(ctx, P)
     c12.secret_key_aead(ctx, P)
+    # the checksum helpers the unlock arms rely on really compare (shared with C18)
+    from rules import c18
+    c18.checksum_helpers(ctx, P)
 
 
 def unlock(ctx, P):
